@@ -20,7 +20,7 @@ try:
     rc_all = 0
     for prop in a.props.split(","):
         cmd = ["/verif/check", prop, "--tier", a.tier] + (["--unit", a.unit] if a.unit else []) + (["-v"] if a.v else [])
-        env = dict(os.environ, OSACA_REPO=d, PYVC_EVIDENCE_DIR=os.path.join(d, "_evidence"))
+        env = dict(os.environ, OSACA_REPO=d, PYVC_EVIDENCE_DIR=os.path.join(d, "_evidence"), PYVC_REPLAY_DIR=os.path.join(d, "_replays"))
         r = subprocess.run(cmd, capture_output=True, text=True, env=env)
         lines = r.stdout.strip().split("\n")
         viol = [l for l in lines if l.startswith(("VIOLATION", "KNOWN", "UNDECIDED", "CHECKER"))]
